@@ -9,10 +9,10 @@ PROP = dict(
     coq_targets=["Crypto/EcdsaToy.vo"],
     quick_shards=16,
     theorems=["C17_sign_recover", "C17_sign_verify", "C17_normalised", "C17_binding", "C17_message_plus_n",
-              "C17_recover_verify", "C17_other_message_refuted"],
+              "C17_recover_verify", "C17_normalising_recover_same_on_low_s", "C17_other_message_refuted"],
     open_statements=[
         "C17_other_message_full_statement (a signature fails to recover the signer's key for ANY other 32-byte message) is REFUTED: "
-        "C17_other_message_refuted, m' = m + n (finding F6; inherent to ECDSA, the digest enters only modulo n). Proved instead: C17_binding (same key => messages congruent mod n)",
+        "C17_other_message_refuted, m' = m + n (known finding F6, classes message-plus-n-same-key / r1-message-plus-n-same-key; inherent to ECDSA, the digest enters only modulo n). Proved instead: C17_binding (same key => messages congruent mod n)",
         "the nonce is an explicit argument: RFC 6979 derivation (and therefore the exact signature bytes) is not modelled; valid_nonce excludes R = infinity, r = 0, s = 0 "
         "and x(kG) >= n (on the last the Rust code would hit `expect(\"reduced-x recovery ids are never generated\")`; probability ~2^-128, no witness known)",
         "Ed25519: verification is an oracle (ed25519-dalek verify_strict IS the reference); only the implementation-level oracle checks fuel_crypto::ed25519::verify "
@@ -39,8 +39,7 @@ PROP = dict(
                 "all three back-ends; a recovered key always satisfies textbook ECDSA validity; the same key for two messages forces the messages to be congruent mod n, "
                 "and m + n is indistinguishable from m (concrete refutation of the unqualified 'any other message' clause, F6). Tied to the Rust code by a differential run"),
     level_note=("Partial: Ed25519 and the VM-instruction halves are implementation-level oracle only (libraries are the reference); RFC 6979 nonces not modelled; group laws, "
-                "primality of n are premises. On the unchanged tree the check reports VIOLATIONs for message-plus-n-same-key / r1-message-plus-n-same-key (F6, inherent to ECDSA) "
-                "until listed in known_findings.json."),
+                "primality of n are premises. Known findings replayed on every run (inherent to ECDSA, F6): message-plus-n-same-key, r1-message-plus-n-same-key."),
     technique="Coq proof over an abstract group + differential run (public API, both k1 back-ends, p256, ed25519-dalek, real interpreter) vs executable model",
     design_ref="6/C17",
     model_timeout=1500,
